@@ -46,40 +46,40 @@ func (e *Engine) globalConstInit(gl *ssa.Global, lay *Layout) map[int]string {
 	if init == nil {
 		return out
 	}
-	var offOf func(v ssa.Value) (int, bool)
-	offOf = func(v ssa.Value) (int, bool) {
+	// constant stores into any root (the global itself or a composite-literal temporary)
+	consts := map[ssa.Value]map[int]string{}
+	var offOf func(v ssa.Value) (ssa.Value, int, bool)
+	offOf = func(v ssa.Value) (ssa.Value, int, bool) {
 		switch x := v.(type) {
-		case *ssa.Global:
-			if x == gl {
-				return 0, true
-			}
+		case *ssa.Global, *ssa.Alloc:
+			return v, 0, true
 		case *ssa.IndexAddr:
-			base, ok := offOf(x.X)
+			root, base, ok := offOf(x.X)
 			if !ok {
-				return 0, false
+				return nil, 0, false
 			}
 			c, isC := constOf(x.Index)
 			if !isC {
-				return 0, false
+				return nil, 0, false
 			}
 			pt, ok := x.X.Type().Underlying().(*types.Pointer)
 			if !ok {
-				return 0, false
+				return nil, 0, false
 			}
 			arr, ok := pt.Elem().Underlying().(*types.Array)
 			if !ok {
-				return 0, false
+				return nil, 0, false
 			}
-			return base + int(c.Int64())*lay.Size(arr.Elem()), true
+			return root, base + int(c.Int64())*lay.Size(arr.Elem()), true
 		case *ssa.FieldAddr:
-			base, ok := offOf(x.X)
+			root, base, ok := offOf(x.X)
 			if !ok {
-				return 0, false
+				return nil, 0, false
 			}
 			st := x.X.Type().Underlying().(*types.Pointer).Elem().Underlying().(*types.Struct)
-			return base + lay.FieldOff(st, x.Field), true
+			return root, base + lay.FieldOff(st, x.Field), true
 		}
-		return 0, false
+		return nil, 0, false
 	}
 	for _, b := range init.Blocks {
 		for _, ins := range b.Instrs {
@@ -87,16 +87,34 @@ func (e *Engine) globalConstInit(gl *ssa.Global, lay *Layout) map[int]string {
 			if !ok {
 				continue
 			}
-			off, ok := offOf(st.Addr)
+			root, off, ok := offOf(st.Addr)
 			if !ok {
 				continue
 			}
 			if c, isC := st.Val.(*ssa.Const); isC && c.Value != nil {
 				if bi, ok := new(big.Int).SetString(c.Value.ExactString(), 10); ok {
-					out[off] = smtInt(bi)
+					if consts[root] == nil {
+						consts[root] = map[int]string{}
+					}
+					consts[root][off] = smtInt(bi)
+				}
+				continue
+			}
+			// *global = *complit
+			if ld, isLd := st.Val.(*ssa.UnOp); isLd && ld.Op == token.MUL {
+				if src, ok := ld.X.(*ssa.Alloc); ok && consts[src] != nil {
+					if consts[root] == nil {
+						consts[root] = map[int]string{}
+					}
+					for k, v := range consts[src] {
+						consts[root][off+k] = v
+					}
 				}
 			}
 		}
+	}
+	for k, v := range consts[gl] {
+		out[k] = v
 	}
 	return out
 }
